@@ -49,6 +49,13 @@ def cases(tier, seed, flavour):
                         yield {'fam': 'planted', 'dims': d, 'n': n, 'p': p, 'kind': kind, 'variant': v + nvar * seed}
                 for v in range(5):
                     yield {'fam': 'qp', 'dims': d, 'n': n, 'p': p, 'variant': v + 5 * seed}
+        # as many variables as the rank assumption allows (n = p + number of independent cone coordinates, which for an
+        # 's' block of order k is k(k+1)/2, not k or k^2): the boundary of the solvers' own dimension pre-check
+        npk = R.cdim_packed(d)
+        if d['s'] and max(d['s']) >= 2 and npk <= 6:
+            for (n, p) in ((npk, 0), (npk + 1, 1)):
+                for kind in ('strict', 'pinf', 'dinf'):
+                    yield {'fam': 'planted', 'dims': d, 'n': n, 'p': p, 'kind': kind, 'variant': seed}
     for i, pb in enumerate(nlsolve.base_problems(seed)):
         if pb['tag'].endswith('9.53674e-07') or pb['tag'].endswith('.edge'):
             continue        # start point 2^-20 / 2^-10 from the domain boundary: not 'moderately conditioned' (used by C04/C10)
